@@ -122,6 +122,27 @@ PtMatch(p, id, h, v, ab) ==
   /\ id[3] = PointY(p, h)
   /\ id[5] = PointF(p, v)
   /\ (ab => 0 <= id[2] /\ id[2] < Pow2(h) /\ 0 <= id[3] /\ id[3] < Pow2(h))
+\* A point one floating-point step below (du / da = -1) or above (+1) a lattice point.
+\* The altitude is scaled by a power of two, so the step below a layer border belongs to the
+\* layer underneath, exactly.  The longitude goes through lon + 180, which may round the step
+\* away: just below a column border either neighbour is a correct answer -- except at the east
+\* world edge (a.edge), where the only voxel there is the last column; lon < 180 never folds.
+NudgeXs(p, du, edge, h, ab) ==
+  LET raw == ScaleFloor(p[2], h, p[1])
+      onBorder == p[1] <= h \/ p[2] % Pow2(p[1] - h) = 0
+  IN  IF du = -1 /\ onBorder
+      THEN IF edge THEN {WrapX(raw - 1, h, ab)} ELSE {WrapX(raw - 1, h, ab), WrapX(raw, h, ab)}
+      ELSE {WrapX(raw, h, ab)}
+NudgeF(p, da, v) ==
+  LET onBorder == p[4] <= v \/ p[5] % Pow2(p[4] - v) = 0
+  IN  IF da = -1 /\ onBorder THEN PointF(p, v) - 1 ELSE PointF(p, v)
+X_PointNudge(e) ==
+  /\ Ok(e) /\ Len(e.r) = 1 /\ e.a.valid                       \* real indices inside 0 .. 2^h - 1
+  /\ LET id == e.r[1]  p == e.a.p IN
+       /\ id[1] = e.a.h /\ id[4] = e.a.v
+       /\ id[2] \in NudgeXs(p, e.a.du, e.a.edge, e.a.h, e.w.abs)
+       /\ LatDecided(p, e.a.h) /\ id[3] = PointY(p, e.a.h)
+       /\ id[5] = NudgeF(p, e.a.da, e.a.v)
 Exp_PointsExt(e) == [i \in 1..Len(e.a.pts) |-> PointToVoxel(e.a.pts[i], e.a.h, e.a.v, e.w.abs)]
 X_PointsExt(e) ==
   IF ZoomOk(RealH(e, e.a.h)) /\ ZoomOk(RealV(e, e.a.v))
@@ -409,6 +430,7 @@ Explains(e) ==
       [] e.op \in {"OverlapSp", "OverlapSpArr"}   -> X_OverlapSp(e)
       [] e.op = "PointsExt"            -> X_PointsExt(e)
       [] e.op = "PointsSp"             -> X_PointsSp(e)
+      [] e.op = "PointNudge"           -> X_PointNudge(e)
       [] e.op = "PointInVoxel"         -> X_PointInVoxel(e)
       [] e.op \in {"VertexExt", "VertexSp"} -> X_Vertex(e)
       [] e.op \in {"CentreExt", "CentreSp"} -> X_Centre(e)
@@ -478,6 +500,7 @@ Expected(e) ==
     [] e.op \in {"OverlapSp", "OverlapSpArr"}   -> Exp_OverlapSp(e)
     [] e.op = "PointsExt"            -> Exp_PointsExt(e)
     [] e.op = "PointsSp"             -> Exp_PointsSp(e)
+    [] e.op = "PointNudge"           -> [xs |-> NudgeXs(e.a.p, e.a.du, e.a.edge, e.a.h, e.w.abs), y |-> PointY(e.a.p, e.a.h), f |-> NudgeF(e.a.p, e.a.da, e.a.v)]
     [] e.op = "PointInVoxel"         -> "west <= lon < east, south < lat <= north, bottom <= alt < top"
     [] e.op \in {"VertexExt", "VertexSp"} -> Vertices(e.a.id)
     [] e.op \in {"CentreExt", "CentreSp"} -> [cu |-> CentreU(e.a.id), ca |-> CentreA(e.a.id), back |-> <<e.a.id>>]
